@@ -574,15 +574,27 @@ pub fn echo_exports(
             }
             writeln!(o, "    default: verif_vt.fail({k}, verif_c, 9);\n  }}").unwrap();
         }
-        // free the owned argument
+        // free the owned argument: with the export-side helper on even cases, with the import-side
+        // helper of the layout-identical twin type on odd cases (so both families of helpers run)
         let (pt, pn) = &exp.params[0];
         if pt.ptr == 1 {
-            if let Some(h) = free_helper(hdr, &pt.deref()) {
-                if pn.starts_with("maybe_") {
-                    writeln!(o, "  if ({pn}) {}({pn});", h.name).unwrap();
-                } else {
-                    writeln!(o, "  {}({pn});", h.name).unwrap();
+            let guard = if pn.starts_with("maybe_") { format!("if ({pn}) ") } else { String::new() };
+            let eh = free_helper(hdr, &pt.deref());
+            let ih = free_helper(hdr, &imp.params[0].0.deref());
+            match (eh, ih) {
+                (Some(e), Some(i)) if e.name != i.name => {
+                    writeln!(
+                        o,
+                        "  {guard}{{ if (verif_c & 1) {}(({}) {pn}); else {}({pn}); }}",
+                        i.name,
+                        imp.params[0].0.text(),
+                        e.name
+                    )
+                    .unwrap();
                 }
+                (Some(e), _) => writeln!(o, "  {guard}{}({pn});", e.name).unwrap(),
+                (None, Some(i)) => writeln!(o, "  {guard}{}(({}) {pn});", i.name, imp.params[0].0.text()).unwrap(),
+                (None, None) => {}
             }
         }
         writeln!(o, "  verif_vt.mark(3, {k});").unwrap();
